@@ -286,7 +286,30 @@ package graphsync
 //@ func (*graphsync.requestIDToChannelIDMap).any {C20}
 //@   acquires {C20} graphsync.requestIDToChannelIDMap.lk
 //@   loop 0 invariant [scan] $i >= 0
-//@ func (*graphsync.Transport).gsReqRecdHook {C16,C20}
+//@ func (*graphsync.Transport).gsReqRecdHook {C16,C20,C05}
+//@   ensures [decode-error] {C16,C12} ret(GetTransferData, 1) != nil ==> calls(IncomingRequestHookActions.TerminateWithError) == 1 && never(Transport.trackDTChannel) &&
+//@       never(EventsHandler.OnRequestReceived) && never(EventsHandler.OnResponseReceived) && never(IncomingRequestHookActions.ValidateRequest)
+//@   ensures [not-ours] {C16} ret(GetTransferData, 1) == nil && ret(GetTransferData, 0) == nil ==> never(Transport.trackDTChannel) && never(EventsHandler.OnRequestReceived) &&
+//@       never(EventsHandler.OnResponseReceived) && never(IncomingRequestHookActions.ValidateRequest) && never(IncomingRequestHookActions.TerminateWithError)
+//@   ensures [derived-id] {C16,C05} all(Transport.trackDTChannel, $1 == (ret(GetTransferData, 0).IsRequest() ?
+//@       datatransfer.ChannelID{ID: ret(GetTransferData, 0).TransferID(), Initiator: p, Responder: t.peerID} :
+//@       datatransfer.ChannelID{ID: ret(GetTransferData, 0).TransferID(), Initiator: t.peerID, Responder: p})) && calls(Transport.trackDTChannel) <= 1
+//@       -- the channel is named from the authenticated graphsync peer and our own id, never from anything else in the message
+//@   ensures [same-channel] {C16,C05} all(EventsHandler.OnRequestReceived, $1 == arg(Transport.trackDTChannel, 1) && $2 == ret(GetTransferData, 0)) &&
+//@       all(EventsHandler.OnResponseReceived, $1 == arg(Transport.trackDTChannel, 1) && $2 == ret(GetTransferData, 0)) &&
+//@       all(EventsHandler.OnContextAugment, $1 == arg(Transport.trackDTChannel, 1)) &&
+//@       all(dtChannel.gsDataRequestRcvd, $0 == ret(Transport.trackDTChannel, 0) && $1 == request.ID() && $2 == hookActions)
+//@   ensures [by-kind] {C16,C05} calls(Transport.trackDTChannel) == 1 ==> calls(EventsHandler.OnRequestReceived) == (ret(GetTransferData, 0).IsRequest() ? 1 : 0) &&
+//@       calls(EventsHandler.OnResponseReceived) == (ret(GetTransferData, 0).IsRequest() ? 0 : 1)
+//@   ensures [validated-only-when-handled] {C16,C04} calls(IncomingRequestHookActions.ValidateRequest) <= 1 && (calls(IncomingRequestHookActions.ValidateRequest) == 1 ==>
+//@       last(IncomingRequestHookActions.ValidateRequest) && calls(dtChannel.gsDataRequestRcvd) == 1 && never(IncomingRequestHookActions.TerminateWithError))
+//@   ensures [refused-is-terminated] {C16,C04} calls(EventsHandler.OnRequestReceived) == 1 && ret(EventsHandler.OnRequestReceived, 1) != nil && ret(EventsHandler.OnRequestReceived, 1) != datatransfer.ErrPause ==>
+//@       calls(IncomingRequestHookActions.TerminateWithError) >= 1 && never(IncomingRequestHookActions.ValidateRequest) && never(dtChannel.gsDataRequestRcvd)
+//@   ensures [refused-response-is-terminated] {C16,C04} calls(EventsHandler.OnResponseReceived) == 1 && ret(EventsHandler.OnResponseReceived, 0) != nil && ret(EventsHandler.OnResponseReceived, 0) != datatransfer.ErrPause ==>
+//@       calls(IncomingRequestHookActions.TerminateWithError) >= 1 && never(IncomingRequestHookActions.ValidateRequest) && never(dtChannel.gsDataRequestRcvd)
+//@   ensures [pause-asked-is-paused] {C16,C08} (calls(EventsHandler.OnRequestReceived) == 1 && ret(EventsHandler.OnRequestReceived, 1) == datatransfer.ErrPause) ||
+//@       (calls(EventsHandler.OnResponseReceived) == 1 && ret(EventsHandler.OnResponseReceived, 0) == datatransfer.ErrPause) ==>
+//@       calls(IncomingRequestHookActions.PauseResponse) == 1 || calls(IncomingRequestHookActions.TerminateWithError) >= 1 -- (terminated only when the reply message cannot be encoded)
 //@   after GetTransferData [decoders-are-FromIPLD] $r1 == nil && $r0 != nil ==> ($r0.IsRequest() ? implements($r0, datatransfer.Request) : implements($r0, datatransfer.Response))
 //@   modifies ret(Transport.trackDTChannel, 0).xferStarted, ret(Transport.trackDTChannel, 0).isOpen, ret(Transport.trackDTChannel, 0).pendingExtensions,
 //@       ret(Transport.trackDTChannel, 0).requestID, ret(Transport.trackDTChannel, 0).requesterCancelled
@@ -294,19 +317,33 @@ package graphsync
 //@   requires request != nil && hookActions != nil && t.events != nil
 //@   loop 0 invariant [extensions] $i >= 0
 //@ func (*graphsync.Transport).OpenChannel {C16,C20}
+//@   ensures [handler-required] {C16} t.events == nil ==> result == datatransfer.ErrHandlerNotSet && untouched
+//@   ensures [tracks-then-opens] {C16,C10} all(Transport.trackDTChannel, $1 == channelID) && all(dtChannel.open, $0 == ret(Transport.trackDTChannel, 0) && $2 == channelID && $3 == dataSender && $4 == root && $5 == stor && $6 == channel) &&
+//@       calls(dtChannel.open) <= 1 && before(Transport.trackDTChannel, dtChannel.open)
+//@   ensures [restart-extension] {C10} all(Transport.getRestartExtension, $2 == dataSender && $3 == channel)
+//@   ensures [consumes-iff-opened] {C16,C01} (result == nil) == (calls(dtChannel.open) == 1 && ret(dtChannel.open, 1) == nil) && (result == nil ==> spawned(Transport.executeGsRequest)) &&
+//@       (result != nil ==> !spawned(Transport.executeGsRequest))
 //@   requires ctx != nil -- API precondition (Go convention): contexts are never nil
 //@   acquires {C20} graphsync.Transport.dtChannelsLk, graphsync.dtChannel.lk
 //@ func (*graphsync.Transport).PauseChannel {C20}
+//@   ensures [routes-to-tracked-channel] {C16,C11} all(Transport.getDTChannel, $1 == chid) && (ret(Transport.getDTChannel, 1) != nil ==> result == ret(Transport.getDTChannel, 1) && never(dtChannel.pause)) &&
+//@       (ret(Transport.getDTChannel, 1) == nil ==> calls(dtChannel.pause) == 1 && all(dtChannel.pause, $0 == ret(Transport.getDTChannel, 0)) && result == ret(dtChannel.pause, 0))
 //@   acquires {C20} graphsync.Transport.dtChannelsLk, graphsync.dtChannel.lk
 //@ func (*graphsync.Transport).ResumeChannel {C20}
+//@   ensures [routes-to-tracked-channel] {C16,C11} all(Transport.getDTChannel, $1 == chid) && (ret(Transport.getDTChannel, 1) != nil ==> result == ret(Transport.getDTChannel, 1) && never(dtChannel.resume)) &&
+//@       (ret(Transport.getDTChannel, 1) == nil ==> calls(dtChannel.resume) == 1 && all(dtChannel.resume, $0 == ret(Transport.getDTChannel, 0) && $2 == msg) && result == ret(dtChannel.resume, 0))
 //@   acquires {C20} graphsync.Transport.dtChannelsLk, graphsync.dtChannel.lk
 //@ func (*graphsync.Transport).CloseChannel {C09,C20}
+//@   ensures [routes-to-tracked-channel] {C16,C09} all(Transport.getDTChannel, $1 == chid) && (ret(Transport.getDTChannel, 1) != nil ==> result == ret(Transport.getDTChannel, 1) && never(dtChannel.close)) &&
+//@       (ret(Transport.getDTChannel, 1) == nil ==> calls(dtChannel.close) == 1 && all(dtChannel.close, $0 == ret(Transport.getDTChannel, 0)) && ((result == nil) == (ret(dtChannel.close, 0) == nil)))
 //@   prompt {C09}
 //@   requires ctx != nil
 //@   acquires {C20} graphsync.Transport.dtChannelsLk, graphsync.dtChannel.lk
 //@ func (*graphsync.Transport).UseStore {C20}
+//@   ensures [per-channel-store] {C16} seq(Transport.trackDTChannel, dtChannel.useStore) && all(Transport.trackDTChannel, $1 == channelID) && all(dtChannel.useStore, $0 == ret(Transport.trackDTChannel, 0)) && result == ret(dtChannel.useStore, 0)
 //@   acquires {C20} graphsync.Transport.dtChannelsLk, graphsync.dtChannel.optionsLk
 //@ func (*graphsync.Transport).MaxLinks {C20}
+//@   ensures [per-channel-limit] {C16} all(Transport.trackDTChannel, $1 == channelID) && all(dtChannel.setMaxLinks, $0 == ret(Transport.trackDTChannel, 0) && $1 == maxLinks) && calls(dtChannel.setMaxLinks) == 1
 //@   acquires {C20} graphsync.Transport.dtChannelsLk, graphsync.dtChannel.optionsLk
 //@ func (*graphsync.Transport).Shutdown {C20}
 //@   requires ctx != nil
@@ -334,3 +371,17 @@ package graphsync
 //@ func (*graphsync.dtChannel).cancel$1 {C09,C20}
 //@   requires *c != nil && *requestID != nil && *ctx != nil
 //@   promises *errch {C09} -- one answer on every path (the cancel call itself is assumed to return: dependency)
+//@ func (*graphsync.Transport).getRestartExtension {C10}
+//@   ensures [only-on-restart] channel == nil ==> untouched && err == nil && len(result0) == 0
+//@   ensures [skip-received] channel != nil ==> seq(getDoNotSendFirstBlocksExtension) && all(getDoNotSendFirstBlocksExtension, $0 == channel)
+//@ func (*graphsync.Transport).SetEventHandler {C16}
+//@   modifies t.events, t.unregisterFuncs
+//@   ensures [only-once] old(t.events) != nil ==> result == datatransfer.ErrHandlerAlreadySet && untouched && t.events == old(t.events)
+//@   ensures [handler-set] old(t.events) == nil ==> result == nil && t.events == events
+//@   ensures [hooks-0] old(t.events) == nil ==> calls(GraphExchange.RegisterIncomingRequestProcessingListener) == 1 && all(GraphExchange.RegisterIncomingRequestProcessingListener, ismethod($1, t, gsRequestProcessingListener)) && calls(GraphExchange.RegisterOutgoingRequestProcessingListener) == 1 && all(GraphExchange.RegisterOutgoingRequestProcessingListener, ismethod($1, t, gsRequestProcessingListener))
+//@   ensures [hooks-1] old(t.events) == nil ==> calls(GraphExchange.RegisterIncomingRequestHook) == 1 && all(GraphExchange.RegisterIncomingRequestHook, ismethod($1, t, gsReqRecdHook)) && calls(GraphExchange.RegisterCompletedResponseListener) == 1 && all(GraphExchange.RegisterCompletedResponseListener, ismethod($1, t, gsCompletedResponseListener))
+//@   ensures [hooks-2] old(t.events) == nil ==> calls(GraphExchange.RegisterIncomingBlockHook) == 1 && all(GraphExchange.RegisterIncomingBlockHook, ismethod($1, t, gsIncomingBlockHook)) && calls(GraphExchange.RegisterOutgoingBlockHook) == 1 && all(GraphExchange.RegisterOutgoingBlockHook, ismethod($1, t, gsOutgoingBlockHook))
+//@   ensures [hooks-3] old(t.events) == nil ==> calls(GraphExchange.RegisterBlockSentListener) == 1 && all(GraphExchange.RegisterBlockSentListener, ismethod($1, t, gsBlockSentHook)) && calls(GraphExchange.RegisterOutgoingRequestHook) == 1 && all(GraphExchange.RegisterOutgoingRequestHook, ismethod($1, t, gsOutgoingRequestHook))
+//@   ensures [hooks-4] old(t.events) == nil ==> calls(GraphExchange.RegisterIncomingResponseHook) == 1 && all(GraphExchange.RegisterIncomingResponseHook, ismethod($1, t, gsIncomingResponseHook)) && calls(GraphExchange.RegisterRequestUpdatedHook) == 1 && all(GraphExchange.RegisterRequestUpdatedHook, ismethod($1, t, gsRequestUpdatedHook))
+//@   ensures [hooks-5] old(t.events) == nil ==> calls(GraphExchange.RegisterRequestorCancelledListener) == 1 && all(GraphExchange.RegisterRequestorCancelledListener, ismethod($1, t, gsRequestorCancelledListener)) && calls(GraphExchange.RegisterNetworkErrorListener) == 1 && all(GraphExchange.RegisterNetworkErrorListener, ismethod($1, t, gsNetworkSendErrorListener))
+//@   ensures [hooks-6] old(t.events) == nil ==> calls(GraphExchange.RegisterReceiverNetworkErrorListener) == 1 && all(GraphExchange.RegisterReceiverNetworkErrorListener, ismethod($1, t, gsNetworkReceiveErrorListener))
